@@ -48,7 +48,7 @@ def sweep_serial(sw, r, tier):
     pool = BIG + [r.randrange(10 ** r.randint(1, 24)) for _ in range(6 if tier == "quick" else 40)]
     pairs = list(itertools.product(pool, repeat=2))
     if tier == "quick":
-        pairs = r.sample(pairs, 220)
+        pairs = r.sample(pairs, min(len(pairs), 400))
     for a, n in pairs:
         A = serial_obj(r, a)
         B = serial_obj(r, n)
@@ -103,7 +103,7 @@ def rand_instant(r):
 
 
 def sweep_datetime(sw, r, tier):
-    n = 250 if tier == "quick" else 4000
+    n = 1200 if tier == "quick" else 8000
     for _ in range(n):
         t, u, td = rand_instant(r), rand_instant(r), rand_delta(r)
         A, B = Datetime.from_value(t), Datetime.from_value(u)
@@ -134,7 +134,7 @@ def sweep_datetime(sw, r, tier):
 
 
 def sweep_version(sw, r, tier):
-    n = 150 if tier == "quick" else 2500
+    n = 600 if tier == "quick" else 5000
     for _ in range(n):
         x, y, z = (r.choice([0, 1, 9, 10, 99, 500, r.randrange(500)]) for _ in range(3))
         a, b, c = (r.choice([0, 0, 1, 2, 10, 499 - 0, r.randrange(499)]) for _ in range(3))
@@ -156,7 +156,7 @@ def sweep_version(sw, r, tier):
 
 
 def sweep_naming(sw, r, tier):
-    n = 120 if tier == "quick" else 2000
+    n = 500 if tier == "quick" else 4000
     for _ in range(n):
         w1, w2 = corr_fmt.rand_name(r), corr_fmt.rand_name(r)
         A, B = Naming.from_value(w1), Naming.from_value(w2)
@@ -192,7 +192,7 @@ def sweep_wrong_types(sw, r, tier):
 
 
 def sweep_groups(sw, r, tier):
-    n = 40 if tier == "quick" else 500
+    n = 150 if tier == "quick" else 1000
     for _ in range(n):
         decl = [(nm, k) for nm, k in corr_fmt.group_decl(r, r.randint(2, 3)) if k in ("serial", "datetime", "naming", "version")]
         if len(decl) < 2:
@@ -287,7 +287,7 @@ def run(tier: str, drv_ok: bool) -> dict:
     res = {"sweep": sweep(tier)}
     if drv_ok:
         r = rng("C16corr")
-        cs = arith_cases(r, 60 if tier == "quick" else 800)
+        cs = arith_cases(r, 200 if tier == "quick" else 1500)
         res["corr_diffs"] = cs.run()
         res["corr_stats"] = cs.stats()
         res["corr_samples"] = cs.desc[:3]
